@@ -339,3 +339,72 @@ def owned_arrays(ctx, P, rule="ARRAY-READONLY"):
                 n += 1
     ctx.ob(rule, "factory-users", n >= 40, tu.loc(fn.node), "%d getters go through the read-only factory" % n)
     return n
+
+
+# =============================================================================================
+import json as _json
+import os as _os
+from sa.guards import dnf as _dnf, intervals as _intervals, CountResolver as _CountResolver
+from sa.expr import local_aliases as _local_aliases
+
+MODULE_GUARD_TABLE = _os.path.join(_os.path.dirname(_os.path.dirname(_os.path.abspath(__file__))), "tables", "module_guards.json")
+MODULE_INCLUSIVE = {
+    "Tree_check_bounds": "virtual root: tree arrays have num_nodes + 1 slots",
+    "IndividualTable_truncate": "truncate position in [0, num_rows]", "NodeTable_truncate": "truncate position in [0, num_rows]",
+    "EdgeTable_truncate": "truncate position in [0, num_rows]", "MigrationTable_truncate": "truncate position in [0, num_rows]",
+    "SiteTable_truncate": "truncate position in [0, num_rows]", "MutationTable_truncate": "truncate position in [0, num_rows]",
+    "PopulationTable_truncate": "truncate position in [0, num_rows]", "ProvenanceTable_truncate": "truncate position in [0, num_rows]",
+}
+
+
+def module_guards(ctx, P, rule="MODULE-GUARD", freeze=False):
+    ctx.rule(rule, "every range guard in the module that raises ValueError/IndexError and whose upper bound denotes a row / node / "
+                   "sample count accepts exactly [0, count) (count itself only at the frozen position / virtual-root guards), has "
+                   "a lower bound unless the subject is unsigned, and every guard confirmed by reading is still present")
+    R = _CountResolver(P)
+    tu = P.tus["module"]
+    seen = {}
+    for fn in tu.funcs.values():
+        al = None
+        for n in walk(fn.body):
+            if n.k != "IfStmt" or len(n.kids) < 2 or n.kids[1] is None:
+                continue
+            then = n.kids[1]
+            raises = [c for c in calls(then) if callee(c) in ("PyErr_SetString", "PyErr_Format", "handle_library_error")]
+            if not raises or len(tu.src(then)) > 400:
+                continue
+            al = al or _local_aliases(fn)
+            ivs = _intervals(_dnf(n.kids[0], al))
+            for subj, iv in sorted(ivs.items()):
+                if iv.hi is None:
+                    continue
+                cls = R.classify(iv.hi[1], fn)
+                if cls is None:
+                    continue
+                tbl, k = cls
+                total = k + iv.hi[2]
+                seen[fn.name] = seen.get(fn.name, 0) + 1
+                key = "%s|%s" % (fn.name, subj)
+                if total == 0:
+                    ok, why = True, "accepts [.., count(%s))" % tbl
+                elif total == 1 and fn.name in MODULE_INCLUSIVE:
+                    ok, why = True, "inclusive: " + MODULE_INCLUSIVE[fn.name]
+                else:
+                    ok, why = False, "accepts %s == count(%s)%s: one past the last valid index" % (subj, tbl, "" if total == 1 else "%+d" % (total - 1))
+                if ok and iv.lo is None:
+                    uns = iv.hi_atom is not None and iv.hi_atom.ln is not None and (
+                        "unsigned" in (iv.hi_atom.ln.dty or "") or (iv.hi_atom.ln.ty or "") in ("tsk_size_t", "size_t", "uint32_t", "unsigned int"))
+                    if not uns:
+                        ok, why = False, "no lower bound on signed `%s`" % subj
+                ctx.ob(rule, key, ok, tu.loc(n), why)
+    if freeze:
+        with open(MODULE_GUARD_TABLE, "w") as fh:
+            _json.dump({"comment": "module range guards confirmed by reading; count per function", "guards": seen}, fh, indent=1, sort_keys=True)
+        return seen
+    with open(MODULE_GUARD_TABLE) as fh:
+        frozen = _json.load(fh)["guards"]
+    for fname, cnt in sorted(frozen.items()):
+        have = seen.get(fname, 0)
+        ctx.ob(rule + "-PRESENT", fname, have >= cnt, "python/_tskitmodule.c (%s)" % fname, "%d count-bounded guard(s) (confirmed %d)" % (have, cnt))
+    ctx.rule(rule + "-PRESENT", "every module range guard confirmed by reading (tables/module_guards.json) is still present")
+    return seen
